@@ -15,9 +15,10 @@ import (
 	"github.com/cosmos/cosmos-sdk/types/tx/signing"
 	authsigning "github.com/cosmos/cosmos-sdk/x/auth/signing"
 	"github.com/cosmos/cosmos-sdk/x/authz"
-	"github.com/cosmos/cosmos-sdk/x/feegrant"
 	banktypes "github.com/cosmos/cosmos-sdk/x/bank/types"
+	"github.com/cosmos/cosmos-sdk/x/feegrant"
 	govv1 "github.com/cosmos/cosmos-sdk/x/gov/types/v1"
+	"github.com/cosmos/cosmos-sdk/x/group"
 	stakingtypes "github.com/cosmos/cosmos-sdk/x/staking/types"
 
 	beacontypes "github.com/unification-com/mainchain/x/beacon/types"
@@ -207,6 +208,17 @@ func (w *World) BuildMsg(m M) (sdk.Msg, error) {
 		}
 		e := authz.NewMsgExec(g, inner)
 		return &e, nil
+	case "GExec":
+		// a group proposal by a member, executed at once when the proposer's vote reaches the threshold
+		var inner []sdk.Msg
+		for _, im := range mList(m, "msgs") {
+			x, err := w.BuildMsg(im)
+			if err != nil {
+				return nil, err
+			}
+			inner = append(inner, x)
+		}
+		return group.NewMsgSubmitProposal(w.GrpAddr.String(), []string{A("member")}, inner, "", group.Exec_EXEC_TRY, "t", "s")
 	case "Grant":
 		granter, err := sdk.AccAddressFromBech32(A("granter"))
 		if err != nil {
@@ -435,10 +447,10 @@ var _ client.TxConfig
 var msgTypeURLs = map[string]string{
 	"Raise": sdk.MsgTypeURL(&enttypes.MsgUndPurchaseOrder{}), "Decide": sdk.MsgTypeURL(&enttypes.MsgProcessUndPurchaseOrder{}),
 	"Whitelist": sdk.MsgTypeURL(&enttypes.MsgWhitelistAddress{}),
-	"WReg": sdk.MsgTypeURL(&wrkchaintypes.MsgRegisterWrkChain{}), "WRec": sdk.MsgTypeURL(&wrkchaintypes.MsgRecordWrkChainBlock{}),
+	"WReg":      sdk.MsgTypeURL(&wrkchaintypes.MsgRegisterWrkChain{}), "WRec": sdk.MsgTypeURL(&wrkchaintypes.MsgRecordWrkChainBlock{}),
 	"WBuy": sdk.MsgTypeURL(&wrkchaintypes.MsgPurchaseWrkChainStateStorage{}),
 	"BReg": sdk.MsgTypeURL(&beacontypes.MsgRegisterBeacon{}), "BRec": sdk.MsgTypeURL(&beacontypes.MsgRecordBeaconTimestamp{}),
-	"BBuy": sdk.MsgTypeURL(&beacontypes.MsgPurchaseBeaconStateStorage{}),
+	"BBuy":    sdk.MsgTypeURL(&beacontypes.MsgPurchaseBeaconStateStorage{}),
 	"SCreate": sdk.MsgTypeURL(&streamtypes.MsgCreateStream{}), "SClaim": sdk.MsgTypeURL(&streamtypes.MsgClaimStream{}),
 	"STopUp": sdk.MsgTypeURL(&streamtypes.MsgTopUpDeposit{}), "SRate": sdk.MsgTypeURL(&streamtypes.MsgUpdateFlowRate{}),
 	"SCancel": sdk.MsgTypeURL(&streamtypes.MsgCancelStream{}), "Send": sdk.MsgTypeURL(&banktypes.MsgSend{}),
